@@ -175,6 +175,10 @@ def cmd_check(pid: str, tier: str, seed: int) -> int:
         print(f"  broken: {inst.rule} at {inst.anchor}: {inst.message or inst.construct}")
         print(f"VIOLATION property={pid} replay={path}")
         rc = 1
+    if selftest is not None:
+        skipped = [r["name"] for r in selftest.get("results", []) if r.get("status") == "skipped"]
+        print(f"  self-test: {selftest.get('breakers_reported', 0)} breakers reported, {selftest.get('preservers_silent', 0)} preservers silent, "
+              f"{len(skipped)} skipped{(' ' + str(skipped)) if skipped else ''}")
     if selftest is not None and selftest.get("failed"):
         print(f"ANALYSIS-ERROR property={pid} checker self-test failed: {selftest['failed']}")
         rc = rc or 2
